@@ -205,6 +205,10 @@ def sweep_api(spec):
 
 
 # ----------------------------------------------------------------- CLI slice
+class OnThreshold(Exception):
+    pass
+
+
 @st.composite
 def cli_case(draw):
     paired = draw(st.booleans())
@@ -216,7 +220,8 @@ def cli_case(draw):
             tail = draw(st.sampled_from(["", "AAAA", "AAAAAAAAAA", "AAAACAAAAA", "AAAAAAAACA", "AA"]))
             head = draw(st.sampled_from(["", "TTTT", "TTTTTTTTTT", "TTTTTGTTTT", "NN", "N"]))
             s = head + body + tail + draw(st.sampled_from(["", "N", "NNN"]))
-            q = draw(st.text(alphabet="!#+5?I", min_size=len(s), max_size=len(s)))
+            q = draw(st.text(alphabet=draw(st.sampled_from(["!#+5?I", "!#+5?I", "!+5?Ic~", "I~"])),
+                             min_size=len(s), max_size=len(s)))
             recs[k].append([f"r{i}", s, q])
     opts = draw(st.lists(st.sampled_from(["--poly-a", "--trim-n", "max-n", "max-ee"]), min_size=1, max_size=4,
                          unique=True))
@@ -224,7 +229,7 @@ def cli_case(draw):
     if "max-n" in opts:
         case["max_n"] = draw(st.sampled_from([0, 1, 2, 0.1, 0.25, 0.5]))
     if "max-ee" in opts:
-        case["max_ee"] = draw(st.sampled_from([0.5, 1.0, 2.0, 3.0, 5.5]))
+        case["max_ee"] = draw(st.sampled_from([0, 0.0, 0.001, 0.5, 1.0, 2.0, 3.0, 5.5]))
     return case
 
 
@@ -267,17 +272,26 @@ def check_cli(case, ctx):
             c = case["max_n"]
             nc = s.lower().count("n")
             bad = bad or ((len(s) > 0 and nc / len(s) > c) if c < 1 else nc > c)
-        ee = "max-ee" in case["opts"] and ref_ee(q) > case["max_ee"]
+        ee = False
+        if "max-ee" in case["opts"]:
+            v = ref_ee(q)
+            if v != 0 and abs(v - case["max_ee"]) < 1e-9:
+                raise OnThreshold()  # float accumulation order decides: no verdict
+            ee = v > case["max_ee"]
         return (name, s, q), bad, ee
 
     exp1, exp2 = [], []
     changed = False
     for i in range(len(case["r1"])):
-        o1, n1, e1 = process(case["r1"][i], False)
-        if paired:
-            o2, n2, e2 = process(case["r2"][i], True)
-        else:
-            o2, n2, e2 = None, False, False
+        try:
+            o1, n1, e1 = process(case["r1"][i], False)
+            if paired:
+                o2, n2, e2 = process(case["r2"][i], True)
+            else:
+                o2, n2, e2 = None, False, False
+        except OnThreshold:
+            ctx.excluded += 1
+            return
         if tuple(case["r1"][i]) != o1 or n1 or e1 or n2 or e2:
             changed = True
         if n1 or n2 or e1 or e2:
